@@ -61,10 +61,17 @@ func Peek(obj interface{}, field string) int64            { return 0 }
 func SameObject(a, b interface{}) bool                    { return false }
 func Guard(v interface{}, mu interface{}, what string)    {}
 func GuardObj(v interface{}, mu interface{}, what string) {}
-func SetFlag(key string, v int)                           {}
-func GetFlag(key string) int                              { return 0 }
-func Fire(i int) bool                                     { return false }
-func Timers() int                                         { return 0 }
+
+// Freeze declares that the object x refers to (a slice backing array) is published to lock-free
+// readers and must not be written any more.
+func Freeze(x interface{}, what string) {}
+
+// LockFree reports whether nobody holds the mutex (sync.Mutex or sync.RWMutex) in any mode.
+func LockFree(mu interface{}) bool { return true }
+func SetFlag(key string, v int)    {}
+func GetFlag(key string) int       { return 0 }
+func Fire(i int) bool              { return false }
+func Timers() int                  { return 0 }
 
 // ---- primitives used by the Go models in models.go ----
 func GhostGet(p interface{}, key string) int    { return 0 }
